@@ -9,7 +9,12 @@ META = dict(
     technique="Coq: executable transcription of l2cap_input with bounded buffers (Fault outcome); theorems by case analysis "
               "over the handlers; tie: generated server<> instantiations under ASan/UBSan with exactly sized heap buffers, "
               "every opcode x length sweep + structured histories",
-    level_note="see docs/C01.md")
+    level_note="proved (unbounded, closed): (b)+(c) length and opcode framing for every configuration/state/request; "
+               "(a) no Fault for all 14 handlers for every wf configuration without include_service<> and without the marker "
+               "uuid 0x0001, per call and over all reachable states; (c') list framing for min(out_size, MTU) <= 256; "
+               "the C01 monitor accepts every model trace of input-side operations (max_mtu <= 256). Refuted: (a) with "
+               "includes, (c') above 256 (8 bit size counters). Not proved: histories containing l2cap_output / notify. "
+               "See docs/C01.md")
 
 
 class C01(AttBase):
